@@ -53,6 +53,35 @@ def untok_props(props):
     return {k: untok(v) for k, v in props.items()}
 
 
+def tamper(doc, kind, nid, g2):
+    """Edit the serialised text outside FIM (plain networkx / json): drop one node's NodeID or restamp its GraphID."""
+    if doc is None:
+        return doc
+    try:
+        data = json.loads(doc)
+        isjson = True
+    except ValueError:
+        isjson = False
+    if isjson:
+        for nd in data.get("nodes", []):
+            if nd.get("NodeID") == nid:
+                if kind == "drop_nodeid":
+                    del nd["NodeID"]
+                else:
+                    nd["GraphID"] = g2
+                break
+        return json.dumps(data)
+    g = nx.parse_graphml(doc)
+    for n in list(g.nodes):
+        if g.nodes[n].get("NodeID") == nid:
+            if kind == "drop_nodeid":
+                del g.nodes[n]["NodeID"]
+            else:
+                g.nodes[n]["GraphID"] = g2
+            break
+    return "\n".join(nx.generate_graphml(g))
+
+
 class StoreRunner:
     """One fresh store of the chosen flavour; executes abstract ops through the public API."""
 
@@ -178,6 +207,9 @@ class StoreRunner:
             fmt = GraphFormat.GRAPHML if o.get("fmt", self.fmt) == "graphml" else GraphFormat.JSON_NODELINK
             self.doc = self.G(o["g"]).serialize_graph(format=fmt)
             return {"k": "str", "v": "nograph" if self.doc is None else "text"}
+        if op == "Tamper":
+            self.doc = tamper(self.doc, o["kind"], o["n"], o.get("g2"))
+            return none
         if op == "Import":
             entry = o["entry"]
             doc = self.doc if self.doc is not None else ""   # nothing exported (or "graph not found"): empty text
